@@ -1,5 +1,5 @@
 (* C11 model runner: one request per line, one answer per line.
-   Request:  run <noargvars 0|1> <fuel> A <n> <hex>*n  I <n> <hex>*n
+   Request:  run <noargvars 0|1> <mode 0|44|9> <fuel> A <n> <hex>*n  I <n> <hex>*n
              F <n> (<hexname> <k> <hex>*k)*n  C <n> (<hexcmd> <k> <hex>*k)*n  G <n> <hex>*n  <program>
    Program:  B <block> RULES <n> (<pat> <body>)*n E <block> FUNCS <n> (<hexlocal> <block>)*n
    Answer:   ok <status> <events> | err <events> | unmod | fuel          events = ev|ev|... or "-"   *)
@@ -89,13 +89,16 @@ let p_prog () =
   expect "FUNCS"; let funcs = p_list (fun () -> let l = p_hex () in let b = p_block () in (l, b)) in
   { sp_begin = b; sp_rules = rules; sp_end = e; sp_funcs = funcs }
 
+(* input mode: 0 = default, else the separator byte of CSV (44) / TSV (9) *)
+let p_mode () = let m = p_int () in if m = 0 then None else Some (z_of_int m)
 let p_named () = let name = p_hex () in let recs = p_list p_hex in (name, recs)
 
 let show_ev = function
-  | OTrace (tag, nr, fnr, fname, line, nf, ret, vals) ->
+  | OTrace (tag, nr, fnr, fname, line, nf, ret, vals, flds) ->
       String.concat "," ["T"; string_of_z tag; string_of_z nr; string_of_z fnr; hex_of_bytes fname; hex_of_bytes line;
                          string_of_z nf; string_of_z ret;
-                         (if vals = [] then "-" else String.concat ":" (List.map hex_of_bytes vals))]
+                         (if vals = [] then "-" else String.concat ":" (List.map hex_of_bytes vals));
+                         (if flds = [] then "-" else String.concat "/" (List.map hex_of_bytes flds))]
   | OPrint line -> "P," ^ hex_of_bytes line
 
 let show_out (s : st) =
@@ -120,11 +123,12 @@ let handle_hist rest =
     expect "K";
     let runs = p_list (fun () ->
       let nav = next () = "1" in
+      let mode = p_mode () in
       expect "A"; let args = p_list p_hex in
       expect "I"; let stdin_recs = p_list p_hex in
       expect "F"; let files = p_list p_named in
       expect "C"; let cmds = p_list p_named in
-      (({ fs = files; cmds = cmds; globals = globals; noargvars = nav }, args), stdin_recs)) in
+      (({ fs = files; cmds = cmds; globals = globals; noargvars = nav; imode = mode }, args), stdin_recs)) in
     String.concat " ;; " (List.map show_fin (script_history prog (nat_of_int fuel) runs))
   with Parse m -> "driver-error parse " ^ m
 
@@ -134,6 +138,7 @@ let handle = function
       toks := Array.of_list rest; pos := 0;
       (try
         let nav = next () = "1" in
+        let mode = p_mode () in
         let fuel = p_int () in
         expect "A"; let args = p_list p_hex in
         expect "I"; let stdin_recs = p_list p_hex in
@@ -141,7 +146,7 @@ let handle = function
         expect "C"; let cmds = p_list p_named in
         expect "G"; let globals = p_list p_hex in
         let prog = p_prog () in
-        let e = { fs = files; cmds = cmds; globals = globals; noargvars = nav } in
+        let e = { fs = files; cmds = cmds; globals = globals; noargvars = nav; imode = mode } in
         match script_exec e prog (nat_of_int fuel) args stdin_recs with
         | FFuel -> "fuel"
         | FUnmod -> "unmod"
